@@ -7,6 +7,7 @@ package c12
 
 import (
 	"fmt"
+	"time"
 
 	cfg "github.com/lianxiangcloud/linkchain/config"
 	"github.com/lianxiangcloud/linkchain/consensus"
@@ -20,7 +21,11 @@ import (
 
 // consApp is the application behind the consensus state: it never has to produce or
 // commit anything in these runs.
-type consApp struct{ checked int }
+type consApp struct {
+	checked        int
+	committed      *types.Block
+	committedParts *types.PartSet
+}
 
 func (a *consApp) Height() uint64                                   { return types.BlockHeightZero }
 func (a *consApp) LoadBlockMeta(h uint64) *types.BlockMeta          { return nil }
@@ -36,6 +41,7 @@ func (a *consApp) CreateBlock(h uint64, maxTxs int, gasLimit uint64, t uint64) *
 func (a *consApp) PreRunBlock(b *types.Block)     {}
 func (a *consApp) CheckBlock(b *types.Block) bool { a.checked++; return true }
 func (a *consApp) CommitBlock(b *types.Block, ps *types.PartSet, sc *types.Commit, fs bool) ([]*types.Validator, error) {
+	a.committed, a.committedParts = b, ps
 	return nil, nil
 }
 func (a *consApp) SetLastChangedVals(h uint64, v []*types.Validator) {}
@@ -46,11 +52,13 @@ type consRecv struct {
 	height uint64
 	round  int
 	app    *consApp
+	chain  string
+	keys   []crypto.PrivKeyEd25519
 }
 
-// newConsRecv builds a node (not a validator) at the first height of a chain whose
-// validators are keys; the round-0 proposer signs a proposal for header.
-func newConsRecv(chain string, keys []crypto.PrivKeyEd25519, header types.PartSetHeader) (cr *consRecv, err error) {
+// newConsNode builds a node (not a validator) at the first height of a chain whose
+// validators are keys and lets it enter round 0 (it waits for a proposal).
+func newConsNode(chain string, keys []crypto.PrivKeyEd25519) (cr *consRecv, err error) {
 	defer func() {
 		if r := recover(); r != nil {
 			err = fmt.Errorf("consensus set-up: %v", r)
@@ -77,48 +85,115 @@ func newConsRecv(chain string, keys []crypto.PrivKeyEd25519, header types.PartSe
 	}
 	cs.SetEventBus(bus)
 	cs.VerifInstall()
-	cr = &consRecv{cs: cs, bus: bus, app: app}
+	cr = &consRecv{cs: cs, bus: bus, app: app, chain: chain, keys: keys}
 	rs := cs.GetRoundState()
 	cr.height = rs.Height
 	// NewHeight -> NewRound(0) -> Propose (this node is not the proposer: it waits)
 	if f := cs.VerifFire(consensus.VerifTimeout{Duration: 0, Height: rs.Height, Round: 0, Step: cstypes.RoundStepNewHeight}); f != nil {
+		bus.Stop()
 		return nil, fmt.Errorf("entering round 0: %v", f)
 	}
-	rs = cs.GetRoundState()
-	cr.round = rs.Round
+	cr.round = cs.GetRoundState().Round
+	return cr, nil
+}
+
+// propose delivers the round's proposal for the part-set header, signed by the proposer.
+func (cr *consRecv) propose(header types.PartSetHeader) (err error) {
+	defer func() {
+		if r := recover(); r != nil {
+			err = fmt.Errorf("proposal: %v", r)
+		}
+	}()
+	cs := cr.cs
+	rs := cs.GetRoundState()
 	proposer := rs.Validators.GetProposer()
 	var pkey *crypto.PrivKeyEd25519
-	for i := range keys {
-		if string(keys[i].PubKey().Address()) == string(proposer.Address) {
-			pkey = &keys[i]
+	for i := range cr.keys {
+		if string(cr.keys[i].PubKey().Address()) == string(proposer.Address) {
+			pkey = &cr.keys[i]
 		}
 	}
 	if pkey == nil {
-		return nil, fmt.Errorf("proposer key not found")
+		return fmt.Errorf("proposer key not found")
 	}
 	prop := types.NewProposal(cr.height, cr.round, header, -1, types.BlockID{})
-	sig, err := pkey.Sign(prop.SignBytes(chain))
+	sig, err := pkey.Sign(prop.SignBytes(cr.chain))
 	if err != nil {
-		return nil, err
+		return err
 	}
 	prop.Signature = sig
 	// through the wire
 	bz, err := ser.EncodeToBytesWithType(&consensus.ProposalMessage{Proposal: prop})
 	if err != nil {
-		return nil, err
+		return err
 	}
 	var msg consensus.ConsensusMessage
 	if err := ser.DecodeBytesWithType(bz, &msg); err != nil {
-		return nil, err
+		return err
 	}
 	if f := cs.VerifDeliver(msg, "proposer"); f != nil {
-		return nil, fmt.Errorf("delivering the proposal: %v", f)
+		return fmt.Errorf("delivering the proposal: %v", f)
 	}
 	rs = cs.GetRoundState()
 	if rs.ProposalBlockParts == nil || !rs.ProposalBlockParts.HasHeader(header) {
-		return nil, fmt.Errorf("the proposal was not accepted (step %v)", rs.Step)
+		return fmt.Errorf("the proposal was not accepted (step %v)", rs.Step)
+	}
+	return nil
+}
+
+// newConsRecv = a node that has received the proposal for header.
+func newConsRecv(chain string, keys []crypto.PrivKeyEd25519, header types.PartSetHeader) (*consRecv, error) {
+	cr, err := newConsNode(chain, keys)
+	if err != nil {
+		return nil, err
+	}
+	if err := cr.propose(header); err != nil {
+		cr.close()
+		return nil, err
 	}
 	return cr, nil
+}
+
+// votes delivers +2/3 votes (three of the four validators, real keys) of the given type
+// for the block id, one VoteMessage at a time through the wire and handleMsg.
+func (cr *consRecv) votes(typ byte, id types.BlockID, stamp int64) (failure interface{}, err error) {
+	rs := cr.cs.GetRoundState()
+	vals := rs.Validators
+	need := vals.TotalVotingPower()*2/3 + 1
+	var got int64
+	for i := range cr.keys {
+		if got >= need {
+			break
+		}
+		addr := cr.keys[i].PubKey().Address()
+		idx, val := vals.GetByAddress(addr)
+		if val == nil {
+			continue
+		}
+		v := &types.Vote{ValidatorAddress: addr, ValidatorIndex: idx, ValidatorSize: vals.Size(), Height: cr.height, Round: cr.round,
+			Timestamp: time.Unix(1600000000+stamp, int64(i)).UTC(), Type: typ, BlockID: id}
+		sig, err := cr.keys[i].Sign(v.SignBytes(cr.chain))
+		if err != nil {
+			return nil, err
+		}
+		v.Signature = sig
+		bz, err := ser.EncodeToBytesWithType(&consensus.VoteMessage{Vote: v})
+		if err != nil {
+			return nil, err
+		}
+		var msg consensus.ConsensusMessage
+		if err := ser.DecodeBytesWithType(bz, &msg); err != nil {
+			return nil, err
+		}
+		if f := cr.cs.VerifDeliver(msg, fmt.Sprintf("val%d", i)); f != nil {
+			return f, nil
+		}
+		got += val.VotingPower
+	}
+	if got < need {
+		return nil, fmt.Errorf("only %d of %d voting power available", got, need)
+	}
+	return nil, nil
 }
 
 func (cr *consRecv) close() {
